@@ -2,20 +2,42 @@
 # usage: tools/confirm_seed.sh <seed dir>    (confirms a seeded change in a scratch copy of /repo HEAD)
 #  1. the patch applies and the crate's existing tests still pass with it
 #  2. the demonstration fails with the patch and passes without it
+# demo.rs = integration test for agdb/tests; demo.diff = patch that adds a #[cfg(test)] mod seeded_demo_* to the source
 D=$(readlink -f "$1"); N=$(basename "$D")
 S=/var/tmp/seed-confirm-$N; rm -rf "$S"; mkdir -p "$S"
-git -C /repo archive HEAD agdb agdb_derive | tar -x -C "$S"
-cp /repo/Cargo.lock "$S/"
-printf '[workspace]\nresolver = "2"\nmembers = ["agdb", "agdb_derive"]\n' > "$S/Cargo.toml"
 export CARGO_NET_OFFLINE=true CARGO_TARGET_DIR=/var/tmp/agdb-verif-replay-target
-DEMO=seeded_demo_$(echo $N | tr 'A-Z-' 'a-z_')
-cp "$D/demo.rs" "$S/agdb/tests/$DEMO.rs"
+RAFT=0; grep -q "agdb_server/src/raft.rs" "$D/patch.diff" && RAFT=1
+if [ $RAFT = 1 ]; then
+  # the raft module is checked in the harness crate /verif builds for Kani (raft.rs copied in, clock/DbId shims):
+  # its own unit tests are disabled there, so the "existing tests" are run in a copy of the whole workspace
+  rsync -a --exclude target /repo/ "$S/"; CRATE=agdb_server; FILTER="raft::"
+  export CARGO_TARGET_DIR=/var/tmp/agdb-verif-server-target
+else
+  git -C /repo archive HEAD agdb agdb_derive | tar -x -C "$S"
+  cp /repo/Cargo.lock "$S/"
+  printf '[workspace]\nresolver = "2"\nmembers = ["agdb", "agdb_derive"]\n' > "$S/Cargo.toml"
+  CRATE=agdb; FILTER=""
+fi
 cd "$S"
-without=$(timeout 900 cargo test --offline -p agdb --test $DEMO 2>&1 | grep -E "^test result" | tail -1)
-git init -q . && git add -A >/dev/null && git -c user.email=a@b -c user.name=x commit -qm base
+git init -q . 2>/dev/null; git add -A >/dev/null 2>&1; git -c user.email=a@b -c user.name=x commit -qm base >/dev/null 2>&1
+if [ -f "$D/demo.diff" ]; then
+  git apply "$D/demo.diff" || { echo "$N: DEMO PATCH DOES NOT APPLY"; rm -rf "$S"; exit 1; }
+  run_demo() { timeout 1800 cargo test --offline -p $CRATE --lib seeded_demo 2>&1 | grep -E "^test result" | head -1; }
+else
+  DEMO=seeded_demo_$(echo $N | tr 'A-Z-' 'a-z_')
+  cp "$D/demo.rs" "$S/agdb/tests/$DEMO.rs"
+  run_demo() { timeout 900 cargo test --offline -p agdb --test $DEMO 2>&1 | grep -E "^test result" | tail -1; }
+fi
+without=$(run_demo)
+git add -A >/dev/null 2>&1; git -c user.email=a@b -c user.name=x commit -qm demo >/dev/null 2>&1
 if ! git apply "$D/patch.diff"; then echo "$N: PATCH DOES NOT APPLY"; rm -rf "$S"; exit 1; fi
-with=$(timeout 900 cargo test --offline -p agdb --test $DEMO 2>&1 | grep -E "^test result" | tail -1)
-rm "$S/agdb/tests/$DEMO.rs"
-suite=$(timeout 2400 cargo nextest run -p agdb -p agdb_derive --offline --no-fail-fast 2>&1 | grep -E "Summary" | tail -1)
+with=$(run_demo)
+# existing tests with the patch, without the demo
+if [ -f "$D/demo.diff" ]; then git apply -R "$D/demo.diff"; else rm "$S/agdb/tests/$DEMO.rs"; fi
+if [ $RAFT = 1 ]; then
+  suite=$(timeout 2400 cargo nextest run -p agdb_server --offline --no-fail-fast raft:: 2>&1 | grep -E "Summary" | tail -1)
+else
+  suite=$(timeout 2400 cargo nextest run -p agdb -p agdb_derive --offline --no-fail-fast 2>&1 | grep -E "Summary" | tail -1)
+fi
 echo "$N | demo without patch: $without | demo with patch: $with | existing tests with patch: $suite"
 cd /; rm -rf "$S"
